@@ -1301,7 +1301,7 @@ class Atoms:
         for ucmult in ucmults:
             transatoms = self.copy()
             transatoms.translate(np.matmul(transatoms.cell.T, ucmult))
-            repl_atoms.extend(transatoms, offsets=(0,0,0,0))
+            repl_atoms.extend(transatoms, offsets=(0,0,0,0,0))
 
         repl_atoms.cell = self.cell * np.array(repldims).reshape(3, 1)
         return repl_atoms
